@@ -100,7 +100,7 @@ BenignAt(k, j, v) ==
     [] k \in {K_map, K_filter, K_all, K_some, K_none, K_reduce} /\ j = 1 -> IF v = 3 THEN Null ELSE Arr12
     [] k \in {K_map, K_filter, K_all, K_some, K_none} /\ j = 2 -> IF v = 1 THEN VarOf(<<>>) ELSE IntV(1)
     [] k = K_reduce /\ j = 2 -> SumExpr
-    [] OTHER -> Nums(v)[j]
+    [] OTHER -> Nums(v)[((j - 1) % 7) + 1]
 Benign(k, n, v) == [j \in 1..n |-> BenignAt(k, j, v)]
 
 
